@@ -73,6 +73,17 @@ def gen_cases(tier, seed):
         case["db"] = "base"
         if rng.random() < 0.5:
             case["pack"]["ver"] = rng.choice(("prefix1", "prefix2"))
+        nrng = intuniv.rng_for(seed, "C14/ne", i)
+        if nrng.random() < 0.2:
+            # two-way single-child rules that are not equivalences (can_be_equivalent False):
+            # the letter symmetry on every class, or the removal of redundant patterns
+            if nrng.random() < 0.5 and case["cls"].get("right") is None:
+                case["pack"]["sym"] = "ne"
+            else:
+                from vdrive import c12
+
+                case["pack"]["inferral"] = ["minimise_ne"] + [x for x in case["pack"]["inferral"] if x != "minimise"]
+                case["cls"] = c12.add_redundant(case["cls"], nrng)
         case["schedule"] = {"mode": rng.choice(("drain", "sliced")), "costs": [rng.choice((0.001, 4.5))],
                             "rng_seed": rng.randrange(10 ** 6), "tree_k": 0, "perc": 1, "smallest": False}
         case["id"] = produced
